@@ -224,85 +224,11 @@ def run(rep):
                   'memoized/early result)', construct='single-return', node=f)
 
     # ---- R18.2 field consistency ------------------------------------------------
-    sites = 0
-    for rel in repo.all_py():
-        m = repo.module(rel)
-        for fn in ast.walk(m):
-            if not isinstance(fn, FUNC) or fn is f:
-                continue
-            writes = {}
-            for n in walk_local(fn):
-                if isinstance(n, ast.Assign) and isinstance(n.targets[0], ast.Attribute) \
-                        and n.targets[0].attr in ('positional', 'required', 'optional',
-                                                  'varargs', 'kwargs') \
-                        and isinstance(n.targets[0].value, ast.Name) \
-                        and n.targets[0].value.id != 'self':
-                    writes[n.targets[0].attr] = n
-            if 'positional' in writes or 'required' in writes:
-                sites += 1
-                site = '%s:%s' % (rel, qualname(fn))
-                p = writes.get('positional')
-                r = writes.get('required')
-                ok = p is not None and r is not None
-                detail = 'rewrites %s only' % sorted(writes)
-                if ok:
-                    ep = match('$m.positional = $m.positional[$k:]', p, 'exec')
-                    er = match('$m.required = $m.required[$k:]', r, 'exec')
-                    ok = ep is not None and er is not None and \
-                        same(ep['k'], er['k']) and same(ep['m'], er['m'])
-                    detail = ('drops the same leading parameters from positional '
-                              'and required: %s / %s' % (norm_src(p), norm_src(r)))
-                elif p is not None:
-                    detail = ('`%s` without the matching rewrite of `required` '
-                              '(a prefix of positional): required keeps the '
-                              'dropped parameter' % norm_src(p))
-                rep.check('R18.2', site, ok, detail, construct='positional/required',
-                          node=p or r)
-    rep.require(sites >= 1, 'R18.2: no signature-field rewrite found')
+    from . import methodsem
+    methodsem.field_rewrites(rep, repo, 'R18.2', 'fromFunction')
 
     # ---- R18.3 rendering --------------------------------------------------------
-    g = find_def(mod, 'Method.getSignatureString')
-    lps = [n for n in g.body if isinstance(n, ast.For)]
-    ok = len(lps) == 1
-    if ok:
-        lp = lps[0]
-        src, d = iter_polarity(lp.iter)
-        v = lp.target.id
-        ap = find_all(lp, 'sig.append(%s)' % v, 'exec')
-        opt = [n for n in lp.body if isinstance(n, ast.If) and (
-            match('%s in self.optional.keys()' % v, n.test) is not None or
-            match('%s in self.optional' % v, n.test) is not None)]
-        okopt = len(opt) == 1 and any(
-            match("sig[-1] += '=' + repr(self.optional[%s])" % v, s, 'exec')
-            is not None for s in opt[0].body)
-        okorder = bool(ap) and bool(opt) and lp.body.index(ap[0][0]) < lp.body.index(opt[0])
-        va = [n for n in g.body if isinstance(n, ast.If) and match('self.varargs', n.test) is not None]
-        kw = [n for n in g.body if isinstance(n, ast.If) and match('self.kwargs', n.test) is not None]
-        okva = len(va) == 1 and any(match("sig.append('*' + self.varargs)", s, 'exec')
-                                    is not None for s in va[0].body)
-        okkw = len(kw) == 1 and any(match("sig.append('**' + self.kwargs)", s, 'exec')
-                                    is not None for s in kw[0].body)
-        okseq = okva and okkw and g.body.index(lp) < g.body.index(va[0]) < g.body.index(kw[0])
-        rets = [n for n in walk_local(g) if isinstance(n, ast.Return)]
-        okret = len(rets) == 1 and match("'(%s)' % ', '.join(sig)", rets[0].value) is not None
-        ok = match('self.positional', src) is not None and d == 'fwd' and okopt \
-            and okorder and okseq and okret
-    rep.check('R18.3', 'Method.getSignatureString', ok,
-              'positionals in order (+ =repr(default) iff optional), then '
-              '*varargs, then **kwargs, joined with ", " in parentheses',
-              construct='render', node=g)
-    gi = find_def(mod, 'Method.getSignatureInfo')
-    rets = [n for n in walk_local(gi) if isinstance(n, ast.Return)]
-    ok = len(rets) == 1 and isinstance(rets[0].value, ast.Dict)
-    if ok:
-        dct = rets[0].value
-        pairs = {k.value: norm_src(v) for k, v in zip(dct.keys, dct.values)
-                 if isinstance(k, ast.Constant)}
-        ok = pairs == {k: 'self.' + k for k in ('positional', 'required', 'optional',
-                                                'varargs', 'kwargs')}
-    rep.check('R18.3', 'Method.getSignatureInfo', ok,
-              'the five fields are reported under their own names',
-              construct='info', node=gi)
+    methodsem.render_spec(rep, mod, 'R18.3')
 
     # ---- R18.4 ----------------------------------------------------------------
     lps = [n for n in walk_local(f) if isinstance(n, ast.For)
@@ -324,15 +250,4 @@ def run(rep):
     rep.check('R18.4', 'interface.fromFunction', ok,
               'the Method carries name (default func.__name__), doc and interface',
               construct='identity', node=f)
-    fm = find_def(mod, 'fromMethod')
-    rets = [n for n in walk_local(fm) if isinstance(n, ast.Return)]
-    ok = len(rets) == 1 and match(
-        'fromFunction(func, interface, imlevel=1, name=name)', rets[0].value) is not None
-    ifs = [n for n in fm.body if isinstance(n, ast.If) and
-           match('isinstance(meth, MethodType)', n.test) is not None]
-    ok = ok and len(ifs) == 1 and any(
-        match('func = meth.__func__', s, 'exec') is not None for s in ifs[0].body) \
-        and any(match('func = meth', s, 'exec') is not None for s in ifs[0].orelse)
-    rep.check('R18.4', 'interface.fromMethod', ok,
-              'bound methods are unwrapped (__func__) and described with '
-              'imlevel=1 (self removed)', construct='fromMethod', node=fm)
+    methodsem.from_method(rep, mod, 'R18.4')
